@@ -1,219 +1,88 @@
-(** * SlowFacts2b (part B): the big-integer digit comparison of `negative_digit_comp`.
+(** * SlowFacts2c (part C/D): `negative_digit_comp` returns the correctly rounded value.
 
-    Stack back-end ([alloc c = false]).  Under explicit size hypotheses (the two scaled integers
-    fit the capacity [BIGINT_LIMBS]) the scaling code does not panic, keeps both operands
-    normalised, and [vcompare] of the results is the comparison of the exact integers
-      N * 2^max(0,-beta)   and   Mh * 5^k * 2^max(0,beta),
-    which is the comparison of N / 10^k with Mh * 2^e ([scaled_compare_mid]). *)
+    [negative_digit_comp_correct]: stack back-end, exact tables.  Given the digits [N] (a
+    normalised big integer), a negative decimal exponent, and a declined estimate [fp] whose
+    truncation to the format is the pattern [bbits = rd_bits f fp]: if the correctly rounded
+    pattern [w] of N * 10^exponent ([rne_bits]) is [bbits] or [bbits + 1], and the two scaled
+    integers fit the capacity, then the function does not panic and its result packs to [w].
+    All cases of [bbits] are covered: zero, subnormal, subnormal -> normal transition, binade
+    boundary, largest finite (successor +infinity) and even [bbits] = +infinity. *)
 From Coq Require Import ZArith List Bool Lia Znumtheory.
 From Coq Require Import ZifyBool.
-From ML Require Import base.RustSem model.Fmt model.Vec model.Number model.Bigint.
+From ML Require Import base.RustSem model.Fmt model.Mask model.Num model.Rounding model.Vec model.Number
+  model.Bigint model.Slow.
 From ML Require Import gen.Consts gen.PowDump gen.Tables spec.RneZ.
-From ML Require Import proofs.LimbVal proofs.BigintFacts2 proofs.BigintFacts1 proofs.SlowFacts2.
+From ML Require Import proofs.LimbVal proofs.BigintFacts2 proofs.BigintFacts1 proofs.RoundingFactsZ
+  proofs.NumFacts proofs.SlowFacts2 proofs.SlowFacts2b.
 Import ListNotations.
 Open Scope Z_scope.
 Local Opaque Z.pow.
 Arguments Z.pow : simpl never.
 
-(** ** 1. Normalisation is preserved by the multiplications of [pow5] *)
+(** ** 1. The packed result of [round] for a callback returning floor + u *)
 
-Lemma small_mul_normalized c v y v' :
-  limbs_ok (vl v) -> is_normalized (vl v) = true -> 0 < lval (vl v) -> 0 < y < B64 ->
-  small_mul c v y = Some v' -> is_normalized (vl v') = true.
+Definition rd_shift (f : format) (e : Z) : Z :=
+  if e <=? - (63 - MANTISSA_SIZE f) then 1 - e else 63 - MANTISSA_SIZE f.
+
+(** the fields / the pattern of the estimate truncated to the format (`b` of the Rust code) *)
+Definition rd_fields (f : format) (fp : extfloat) : extfloat :=
+  round_spec f (fun s => mant fp / 2 ^ s) (exp fp).
+Definition rd_bits (f : format) (fp : extfloat) : Z := pack_fields f (rd_fields f fp).
+
+Section C.
+Variable f : format.
+Hypothesis Hf : rfmt_ok f = true.
+Hypothesis OK : fmt_ok f = true.
+
+Local Notation ms := (MANTISSA_SIZE f).
+Local Notation sh := (63 - MANTISSA_SIZE f).
+
+Lemma rd_model b fp :
+  2 ^ 63 <= mant fp < 2 ^ 64 -> - 63 <= exp fp <= 2 ^ 30 ->
+  round f b fp (round_down b) = Ok (rd_fields f fp) /\
+  extended_to_float f b (rd_fields f fp) = Ok (rd_bits f fp) /\
+  0 <= rd_bits f fp < 2 ^ (fbits f - 1).
 Proof.
-  intros Hl Hn Hp Hy H.
-  apply small_mul_spec in H; [|assumption|lia]. destruct H as (V & O & Z' & _).
-  assert (Hne : vl v <> []) by (apply lval_pos_nonempty; exact Hp).
-  pose proof (normalized_lower_bound _ Hl Hn Hne) as LB.
-  assert (Hpos' : 0 < lval (vl v')) by (rewrite V; apply Z.mul_pos_pos; lia).
-  assert (Hne' : vl v' <> []) by (apply lval_pos_nonempty; exact Hpos').
-  apply (is_normalized_lval _ O Hne'). rewrite Z', V.
-  destruct (B64 ^ zlen (vl v) <=? lval (vl v) * y) eqn:E.
-  - replace (zlen (vl v) + 1 - 1) with (zlen (vl v)) by lia. lia.
-  - rewrite Z.add_0_r.
-    assert (lval (vl v) * 1 <= lval (vl v) * y) by (apply Z.mul_le_mono_nonneg_l; lia). lia.
+  intros Hm He. destruct fp as [m e]. cbn [mant exp] in *.
+  exact (round_down_packed_Z f Hf b m e Hm He).
 Qed.
 
-Lemma pow_large_loop_normalized c T L : forall fuel v e v1 e1,
-  0 < LARGE_POW5_STEP T -> limbs_ok (LARGE_POW5 T) -> lval (LARGE_POW5 T) = 5 ^ LARGE_POW5_STEP T ->
-  2 <= zlen (LARGE_POW5 T) ->
-  limbs_ok (vl v) -> 0 < lval (vl v) -> is_normalized (vl v) = true ->
-  pow_large_loop c T L fuel v e = Some (v1, e1) -> is_normalized (vl v1) = true.
+Lemma rd_q_bounds m e :
+  2 ^ 63 <= m < 2 ^ 64 -> - 63 <= e ->
+  let q := m / 2 ^ rd_shift f e in
+  (e <= - sh -> 0 <= q < 2 ^ ms) /\ (- sh < e -> 2 ^ ms <= q < 2 * 2 ^ ms).
 Proof.
-  induction fuel as [|fuel IH]; intros v e v1 e1 Hs HL HV H2 Hv Hp Hn; rewrite pow_large_loop_eq;
-    destruct (LARGE_POW5_STEP T <=? e) eqn:E.
-  - discriminate.
-  - intros H. inversion H; subst v1 e1. exact Hn.
-  - destruct (large_mul c L v (LARGE_POW5 T)) as [v'|] eqn:Em; [|discriminate].
-    apply large_mul_spec in Em; try assumption; [|left; apply lval_pos_nonempty; exact Hp].
-    destruct Em as [V [O [N _]]].
-    assert (P5 : 0 < 5 ^ LARGE_POW5_STEP T) by (apply Z.pow_pos_nonneg; lia).
-    intros H. apply IH in H; try assumption.
-    + rewrite V, HV. apply Z.mul_pos_pos; assumption.
-    + apply N. lia.
-  - intros H. inversion H; subst v1 e1. exact Hn.
+  intros Hm He q. destruct (rfmt_ok_props f Hf) as [Pms _ _ _ _ _ _ _ _ _ _].
+  unfold q, rd_shift. split; intros H.
+  - replace (e <=? - sh) with true by lia.
+    pose proof (div_pow2_lt m (1 - e) ltac:(lia) ltac:(lia)) as Hq.
+    pose proof (RoundingFactsZ.pow2_le (64 - (1 - e)) ms ltac:(lia)). lia.
+  - replace (e <=? - sh) with false by lia.
+    pose proof (div_pow2_lt m sh ltac:(lia) ltac:(lia)) as Hq.
+    replace (64 - sh) with (ms + 1) in Hq by lia.
+    rewrite RoundingFactsZ.pow2_succ in Hq by lia. split; [|lia].
+    apply Z.div_le_lower_bound; [apply RoundingFactsZ.pow2_pos; lia|].
+    rewrite <- RoundingFactsZ.pow2_split by lia. replace (sh + ms) with 63 by lia. lia.
 Qed.
 
-Lemma pow_small_loop_normalized c : forall fuel v e v1 e1,
-  limbs_ok (vl v) -> 0 < lval (vl v) -> is_normalized (vl v) = true ->
-  pow_small_loop c fuel v e = Some (v1, e1) -> is_normalized (vl v1) = true.
+Lemma inf_bits_power : inf_bits f = INFINITE_POWER f * 2 ^ ms.
+Proof. destruct (rfmt_ok_props f Hf) as [_ _ _ _ _ _ Pinf _ _ _ _]. rewrite Pinf. reflexivity. Qed.
+
+Lemma pack_round_spec_gen g m e u :
+  2 ^ 63 <= m < 2 ^ 64 -> - 63 <= e <= 2 ^ 30 ->
+  let q := m / 2 ^ rd_shift f e in
+  g (rd_shift f e) = q + u -> 0 <= u <= 1 ->
+  pack_fields f (round_spec f g e) =
+    if e <=? - sh then q + u
+    else if INFINITE_POWER f <=? e + sh then inf_bits f
+    else (e + sh) * 2 ^ ms + (q + u - 2 ^ ms).
 Proof.
-  assert (P5 : 0 < 5 ^ 27 < B64) by (split; vm_compute; reflexivity).
-  induction fuel as [|fuel IH]; intros v e v1 e1 Hv Hp Hn; rewrite pow_small_loop_eq;
-    destruct (small_step <=? e) eqn:E.
-  - discriminate.
-  - intros H. inversion H; subst v1 e1. exact Hn.
-  - destruct (small_mul c v max_native5) as [v'|] eqn:Em; [|discriminate].
-    rewrite max_native5_eq in Em.
-    pose proof (small_mul_normalized c v _ v' Hv Hn Hp P5 Em) as N.
-    apply small_mul_spec in Em; try assumption; [|lia]. destruct Em as [V [O _]].
-    intros H. apply IH in H; try assumption. rewrite V. apply Z.mul_pos_pos; lia.
-  - intros H. inversion H; subst v1 e1. exact Hn.
-Qed.
-
-Theorem pow5_normalized c T L b v e v' :
-  pow5_tables_ok T = true -> pow5_large_ok T L = true ->
-  limbs_ok (vl v) -> 0 < lval (vl v) -> 0 <= e -> is_normalized (vl v) = true ->
-  pow5 c T L b v e = Ok (Some v') -> is_normalized (vl v') = true.
-Proof.
-  intros HT HK Hv Hp He Hn. unfold pow5. intros H.
-  destruct (pow5_tables_ok_inv T HT) as [T1 [T2 [T3 [T4 T5]]]].
-  unfold pow5_large_ok in HK. rewrite !andb_true_iff in HK. destruct HK as [[K1 K2] K3].
-  apply obind_Some in H. destruct H as [[v1 e1] [H1 H]].
-  apply obind_Some in H. destruct H as [[v2 e2] [H2 H]].
-  assert (S1 : lval (vl v1) * 5 ^ e1 = lval (vl v) * 5 ^ e /\ 0 <= e1 /\
-               limbs_ok (vl v1) /\ 0 < lval (vl v1) /\ is_normalized (vl v1) = true).
-  { destruct (compact c) eqn:Ec.
-    - inversion H1; subst v1 e1. repeat split; try assumption; lia.
-    - destruct (LARGE_POW5_STEP T <=? 0) eqn:E0; [discriminate|].
-      apply Ok_inj in H1.
-      pose proof (pow_large_loop_normalized c T L _ _ _ _ _ T1 T3 T2 ltac:(lia) Hv Hp Hn H1) as N1.
-      apply pow_large_loop_spec in H1; try assumption. intuition lia. }
-  destruct S1 as [V1 [He1 [O1 [P1 N1]]]].
-  apply Ok_inj in H2.
-  pose proof (pow_small_loop_normalized c _ _ _ _ _ O1 P1 N1 H2) as N2.
-  apply pow_small_loop_spec in H2; try assumption.
-  destruct H2 as [V2 [He2 [O2 [P2 _]]]].
-  destruct (e2 =? 0) eqn:E2; cbn [negb] in H.
-  - inversion H; subst v'. exact N2.
-  - rewrite int_pow5_fast in H; [|lia|intros _; split; assumption].
-    cbn [bind] in H. apply Ok_inj in H.
-    pose proof (pow5_small_bound e2 ltac:(lia)).
-    apply (small_mul_normalized c v2 (5 ^ e2) v'); assumption.
-Qed.
-
-(** ** 2. Stack back-end: [pow5] and [shl] succeed when the result fits *)
-
-Theorem pow5_stack_ok c T L b v e :
-  alloc c = false -> pow5_tables_ok T = true -> pow5_large_ok T L = true ->
-  limbs_ok (vl v) -> is_normalized (vl v) = true -> 0 < lval (vl v) -> 0 <= e ->
-  vcap v = BIGINT_LIMBS L -> zlen (vl v) <= vcap v ->
-  lval (vl v) * 5 ^ e < B64 ^ BIGINT_LIMBS L ->
-  exists v', pow5 c T L b v e = Ok (Some v') /\
-    lval (vl v') = lval (vl v) * 5 ^ e /\ limbs_ok (vl v') /\ is_normalized (vl v') = true /\
-    vcap v' = BIGINT_LIMBS L /\ zlen (vl v') <= vcap v'.
-Proof.
-  intros Ha HT HK Hv Hn Hp He Hc1 Hc2 Hfit.
-  destruct (pow5_total c T L b v e ltac:(auto) Hv Hp He ltac:(auto)) as [o [E S]].
-  destruct o as [v'|].
-  - exists v'. destruct S as [V [O C]]. destruct (C Ha) as [Ca Cb].
-    split; [exact E|]. split; [exact V|]. split; [exact O|].
-    split; [apply (pow5_normalized c T L b v e v'); assumption|]. split; assumption.
-  - destruct S as [_ S]. lia.
-Qed.
-
-Theorem shl_stack_ok c L b v n :
-  alloc c = false -> LIMB_BITS L = 64 -> 0 <= n < 2 ^ 64 ->
-  limbs_ok (vl v) -> is_normalized (vl v) = true -> 0 < lval (vl v) ->
-  zlen (vl v) <= vcap v -> vcap v < 2 ^ 63 ->
-  lval (vl v) * 2 ^ n < B64 ^ vcap v ->
-  exists v', shl c L b v n = Ok (Some v') /\
-    lval (vl v') = lval (vl v) * 2 ^ n /\ limbs_ok (vl v') /\ is_normalized (vl v') = true /\
-    vcap v' = vcap v.
-Proof.
-  intros Ha HL Hn Hv Hnz Hp Hc Hcap Hfit.
-  assert (Hne : vl v <> []) by (apply lval_pos_nonempty; exact Hp).
-  destruct (shl_full c L b v n HL ltac:(lia) (shl_size_hyp v n Hn ltac:(lia)) Hv) as (o & Ho & Hs & Hnone).
-  destruct o as [v'|].
-  - exists v'. destruct (Hs v' eq_refl) as (V & O & C & _ & N).
-    split; [exact Ho|]. split; [exact V|]. split; [exact O|]. split; [apply N; exact Hnz|apply C; exact Ha].
-  - pose proof (proj1 (Hnone Ha Hne Hnz Hc) eq_refl). lia.
-Qed.
-
-(** `Bigint::pow(2, e)` is the shift *)
-Lemma bigint_pow_2 c T L b v e : bigint_pow c T L b v 2 e = shl c L b v (as_usize e).
-Proof.
-  unfold bigint_pow. change (Z.rem 2 5 =? 0) with false. change (Z.rem 2 2 =? 0) with true.
-  change ((2 =? 2) || (2 =? 5) || (2 =? 10)) with true.
-  unfold debug_assert. rewrite andb_false_r. cbn [bind negb]. cbv iota.
-  unfold obind. cbn [bind]. reflexivity.
-Qed.
-
-Lemma as_u32_id k : 0 <= k < 2 ^ 32 -> as_u32 k = k.
-Proof. intros H. unfold as_u32, wrapu. apply Z.mod_small. exact H. Qed.
-
-Lemma as_usize_id k : 0 <= k < 2 ^ 64 -> as_usize k = k.
-Proof. intros H. unfold as_usize, wrapu. apply Z.mod_small. exact H. Qed.
-
-Lemma sop32_in b r : - 2 ^ 31 <= r < 2 ^ 31 -> sop b 32 r = Ok r.
-Proof.
-  intros H. unfold sop, in_s. change (32 - 1) with 31.
-  replace ((- 2 ^ 31 <=? r) && (r <? 2 ^ 31)) with true by lia. reflexivity.
-Qed.
-
-(** ** 3. The scaling code of `negative_digit_comp` *)
-
-(** the code between `bh(b)` and the comparison, as a function of `theor = (Mh, e)` *)
-Definition scale_digits (c : config) (T : tables) (L : limits) (b : build)
-    (Mh e : Z) (bigmant : vec) (exponent : Z) : outcome (vec * vec) :=
-  theor_digits0 <- from_u64 c L b Mh ;;
-  binary_exp <- i32_sub b e exponent ;;
-  halfradix_exp <- i32_neg b exponent ;;
-  theor_digits1 <- (if negb (halfradix_exp =? 0) then
-                      o <- bigint_pow c T L b theor_digits0 5 (as_u32 halfradix_exp) ;; unwrap o
-                    else Ok theor_digits0) ;;
-  (if 0 <? binary_exp then
-     o <- bigint_pow c T L b theor_digits1 2 (as_u32 binary_exp) ;; t <- unwrap o ;; Ok (t, bigmant)
-   else if binary_exp <? 0 then
-     nb <- i32_neg b binary_exp ;;
-     o <- bigint_pow c T L b bigmant 2 (as_u32 nb) ;; r <- unwrap o ;; Ok (theor_digits1, r)
-   else Ok (theor_digits1, bigmant)).
-
-Section B.
-Variable c : config.
-Variable T : tables.
-Variable L : limits.
-Variable b : build.
-Hypothesis Ha : alloc c = false.
-Hypothesis HT : pow5_tables_ok T = true.
-Hypothesis HK : pow5_large_ok T L = true.
-Hypothesis HL : LIMB_BITS L = 64.
-Hypothesis Hcap : 2 <= BIGINT_LIMBS L < 2 ^ 63.
-
-Theorem scale_digits_ok Mh e bigmant exponent N :
-  0 < Mh < 2 ^ 64 -> - 2 ^ 30 <= e <= 2 ^ 30 -> - 2 ^ 30 <= exponent < 0 ->
-  limbs_ok (vl bigmant) -> is_normalized (vl bigmant) = true -> lval (vl bigmant) = N -> 0 < N ->
-  vcap bigmant = BIGINT_LIMBS L -> zlen (vl bigmant) <= vcap bigmant ->
-  let beta := e - exponent in
-  N * 2 ^ Z.max 0 (- beta) < B64 ^ BIGINT_LIMBS L ->
-  Mh * 5 ^ (- exponent) * 2 ^ Z.max 0 beta < B64 ^ BIGINT_LIMBS L ->
-  exists theor_digits real_digits,
-    scale_digits c T L b Mh e bigmant exponent = Ok (theor_digits, real_digits) /\
-    vcompare (vl real_digits) (vl theor_digits)
-    = (N * 2 ^ Z.max 0 (- beta) ?= Mh * 5 ^ (- exponent) * 2 ^ Z.max 0 beta).
-Proof.
-  intros HMh He Hex Hbo Hbn HbN HN Hbc Hbl beta Hfr Hft.
-  assert (P30 : 2 ^ 30 = 1073741824) by reflexivity.
-  assert (P31 : 2 ^ 31 = 2147483648) by reflexivity.
-  assert (P32 : 2 ^ 32 = 4294967296) by reflexivity.
-  assert (P64 : 2 ^ 64 = 18446744073709551616) by reflexivity.
-  set (k := - exponent) in *.
-  assert (H5 : 0 < 5 ^ k) by (apply Z.pow_pos_nonneg; lia).
-  assert (H2b : 0 < 2 ^ Z.max 0 beta) by (apply Z.pow_pos_nonneg; lia).
-  assert (H2r : 0 < 2 ^ Z.max 0 (- beta)) by (apply Z.pow_pos_nonneg; lia).
-  unfold scale_digits.
-  destruct (from_u64_spec c L b Mh ltac:(lia) ltac:(lia)) as (t0 & E0 & L0 & V0 & O0 & N0 & C0).
-  assert (Z0 : zlen (vl t0) <= vcap t0).
-  { rewrite L0, C0. replace (Mh =? 0) with false by lia. change (zlen [Mh]) with 1. lia. }
-  rewrite E0. cbn [bind].
+  intros Hm He q Hg Hu.
+  destruct (rfmt_ok_props f Hf) as [Pms Pew _ _ _ _ Pinf _ _ _ _].
+  destruct (rd_q_bounds m e Hm ltac:(lia)) as [Qs Qn]. fold q in Qs, Qn.
+  pose proof (RoundingFactsZ.pow2_pos ms ltac:(lia)) as Hpos.
+  pose proof (RoundingFactsZ.pow2_succ ms ltac:(lia)) as Hsucc.
+  rewrite inf_bits_power.
+  unfold round_spec, pack_fields. cbv zeta. unfold rd_shift in Hg, q.
+  destruct (e <=? - sh) eqn:Esub.
 Show. 
